@@ -4,6 +4,7 @@ Theorems: coq/Props/C15.v over Model/DevParams.v.  Tie: exact correspondence -- 
 (save, load into a fresh object), comparing every written file (token positions), every loaded array (shape and
 token positions), is_complete() and __eq__.  Direct oracle (independent of the model): shapes and float.hex() of every
 array after each cycle, == with the original, FileNotFoundError + incomplete object on missing files."""
+import random as random_mod
 import sys, os, json, itertools, tempfile, shutil, warnings
 import numpy as np
 from vlib.common import Check, coq_list, VERIF
@@ -277,6 +278,35 @@ def hand_obj(layout, rng, values=None, m=None):
     return {"T1": vec(n), "T2": vec(n), "p": vec(n), "rout": vec(n), "p_int": tab, "t_int": tab2, "tm": vec(n), "dt": [pick()]}
 
 
+def overwrite_family(ck, DP):
+    rng = random_mod.Random(ck.seed + 15)
+    for rep in range(6 if ck.tier == "quick" else 40):
+        lay = sorted(rng.sample(range(6), rng.randint(1, 4)))
+        fm = rng.choice(["json", "txt"])
+        d = tempfile.mkdtemp(dir=ck.scratch) + "/"
+        objs = [build_obj(DP, lay, hand_obj(lay, rng), {"qubits_layout": lay, "device": "hand-%d" % k, "k": k}) for k in range(2)]
+        seq = [0, 1, 0, 1, 1, 0][:rng.randint(3, 6)]
+        for step, k in enumerate(seq):
+            ck.count("overwrite_same_location", 1, key=(rep, step))
+            try:
+                with quiet(), warnings.catch_warnings():
+                    warnings.simplefilter("ignore")
+                    (objs[k].save_to_json if fm == "json" else objs[k].save_to_texts)(d)
+                    got = DP(list(lay)); (got.load_from_json if fm == "json" else got.load_from_texts)(d)
+            except Exception as e:  # noqa
+                return ("cycle %d (%s) in a re-used location raised %s" % (step, fm, type(e).__name__), {"layout": lay, "format": fm, "sequence": seq[:step + 1]})
+            for f in FIELDS:
+                a, b = np.asarray(getattr(got, f), dtype=float), np.asarray(getattr(objs[k], f), dtype=float)
+                if a.shape != b.shape or a.tobytes() != b.tobytes():
+                    return ("after saving parameter set #%d over set #%d in the same location (%s), the load returns %s that is not bit-identical to what was just saved"
+                            % (k, seq[step - 1] if step else k, fm, f), {"layout": lay, "format": fm, "sequence": seq[:step + 1], "field": f})
+            if not (got == objs[k]) or (fm == "json" and got.metadata != objs[k].metadata):
+                return ("after saving parameter set #%d over another one in the same location (%s), the loaded object does not compare equal to what was just saved" % (k, fm),
+                        {"layout": lay, "format": fm, "sequence": seq[:step + 1]})
+        shutil.rmtree(d, ignore_errors=True)
+    return None
+
+
 def cycles(fmts):
     return [(op, fm) for fm in fmts for op in ("save", "load")]
 
@@ -460,6 +490,13 @@ def main(argv):
             why = oracle(c, r)
             if why and oracle_fail is None:
                 oracle_fail = (c, why)
+    # repeated cycles that RE-USE one location with different parameter sets (save A, load, save B over it, load, save A, load):
+    # each load must return what was saved last, bit for bit, and compare equal to it
+    if oracle_fail is None:
+        why = overwrite_family(ck, DP)
+        ck.oblige("oracle: repeated save/load cycles re-using one location with different contents return the last saved object", why is None)
+        if why:
+            ck.report("oracle-overwrite", "save/load round trip violated: " + why[0], {"family": "overwrite_same_location", "detail": why[1]})
     if oracle_fail:
         c, why = oracle_fail
         ck.report("oracle", "save/load round trip violated: %s (family %s, layout %s, steps %s)" % (why, c["family"], runs[cases.index(c)]["init_obj"]["layout"], c["steps"]),
